@@ -225,6 +225,16 @@ func ModelTextprotoReadDotBytes(r *textproto.Reader) ([]byte, error) {
 	return nil, &scriptNetErr{timeout: st.Cut}
 }
 
+// ModelTextprotoDotReader models (*textproto.Reader).DotReader: a reader over the (un-stuffed)
+// message data the client sends next. A data block cut by a disconnect is outside this model.
+func ModelTextprotoDotReader(r *textproto.Reader) io.Reader {
+	data, err := ModelTextprotoReadDotBytes(r)
+	if err != nil {
+		Unreachable("DotReader over a message data block that ends in an error")
+	}
+	return &ByteSource{Data: data}
+}
+
 // ModelTextprotoPrintfLine models (*textproto.Writer).PrintfLine.
 func ModelTextprotoPrintfLine(w *textproto.Writer, format string, args ...interface{}) error {
 	c := connOfWriter[w]
